@@ -202,8 +202,16 @@ def check_kernel(ctx, lib, NK, FH, name, lanes, nres, precision, quick, table_re
             if base in NUMBA_NAME:
                 nb = np.asarray(getattr(NK, NUMBA_NAME[base])(np.ascontiguousarray(x), Y, np.ascontiguousarray(nx), NY, kp))[None, :]
             else:
-                inter = np.asarray(FH.helmholtz_kernel(np.ascontiguousarray(x.reshape(3, 1)), Y, kp, np.dtype("float64"), np.dtype("complex128"))).reshape(lanes, 4)
-                nb = inter[:, 1:4].T
+                # the library calls this kernel with many target points at once: x is passed as the last of three targets (the first two
+                # are other points), so that per-call work buffers that leak from one target to the next are seen
+                tg = np.ascontiguousarray(np.array([x + np.array([0.37, -0.11, 0.23]) * (1 + np.linalg.norm(x)), 0.5 * x - 0.3, x]).T)
+                inter = np.asarray(FH.helmholtz_kernel(tg, Y, kp, np.dtype("float64"), np.dtype("complex128"))).reshape(3, lanes, 4)
+                nb = inter[2, :, 1:4].T
+                one = np.asarray(FH.helmholtz_kernel(np.ascontiguousarray(x.reshape(3, 1)), Y, kp, np.dtype("float64"), np.dtype("complex128"))).reshape(lanes, 4)
+                if not np.array_equal(one, inter[2]):
+                    ctx.violation("kernel/helmholtz_gradient/numba-batch", {"sub": "kernel", "kernel": name, "k": k, "x": x.tolist()},
+                                  "fmm.helpers.helmholtz_kernel gives different values for a target point evaluated alone and as the third of three targets "
+                                  "(max diff %.3e)" % float(np.max(np.abs(one - inter[2]))))
             for l, b in enumerate(batch):
                 ref, amp = ref_kernel(base, k, b[1], b[2], b[3], b[4])
                 r = np.linalg.norm(b[1] - b[3]) if "far_field" not in base else abs(b[1] @ b[3])
